@@ -6,10 +6,10 @@ def add(id, built, engine, technique, text, note, ref):
     T.append(dict(id=id, built=built, engine=engine, technique=technique, text=text, note=note, design_ref=ref))
 
 
-add("C01", False, "E1-enumerator", "exhaustive small-scope enumeration of (pose, pose, measurement[, offset]) alphabets; oracle = 5-point central difference of the edge's own error through the implementation's boxplus",
+add("C01", True, "E1-enumerator", "exhaustive small-scope enumeration of (pose, pose, measurement[, offset]) alphabets; oracle = 5-point central difference of the edge's own error through the implementation's boxplus",
     "Every odometry/landmark edge configuration over the finite pose alphabets (all sign orthants, w<0, w=0, Hurwitz units, +-pi seam, rotated offsets, large translations) is evaluated; each analytic Jacobian column is compared with a 5-point derivative at 1e-6 relative tolerance. Bounded exhaustive: holds for every combination of the alphabet, no claim for other reals.",
     "alphabet members only; derivative oracle trusts the implementation's calc_error and boxplus (C02/C09 own those); SE(2) wrap set excluded as the property states", "DESIGN.md 4 C01")
-add("C02", False, "E1-enumerator", "exhaustive enumeration of edge/graph configurations vs an independent homogeneous-matrix / Hamilton-product reference model (float and exact Fraction tiers)",
+add("C02", True, "E1-enumerator", "exhaustive enumeration of edge/graph configurations vs an independent homogeneous-matrix / Hamilton-product reference model (float and exact Fraction tiers)",
     "All single-edge configurations over the pose alphabets x information alphabet and all small edge multisets are compared with the reference error / chi2; consistency (chi2 = 0 iff measurement agrees), non-negativity and linearity in Omega are checked on every member.",
     "reference model vf/ref/geom.py + vf/ref/edges.py trusted; SE(3) rotational error accepted up to one global sign per evaluation", "DESIGN.md 4 C02")
 add("C03", False, "E1-enumerator", "exhaustive enumeration of small graph shapes (types x edge multisets x fixed subsets x list orders x ids) vs dense reduced Gauss-Newton reference step",
@@ -33,7 +33,7 @@ add("C08", False, "E2-explorer", "explicit-state exploration of representation t
 add("C09", True, "E1-enumerator", "exhaustive enumeration of pose alphabets (pairs, triples, points, increments) vs homogeneous-matrix / Hamilton-sandwich reference; exact rational tier on Hurwitz x dyadic members",
     "All group laws (matrix homomorphism, (-) definition, two-sided inverse/identity, associativity, point action, boxplus = compose with Exp) are checked on every pair/triple of the finite alphabets, physically (q~-q) at 1e-9, and exactly on the Hurwitz tier.",
     "alphabet members only (no claim for other reals); reference model and CPython float/Fraction trusted", "DESIGN.md 4 C09")
-add("C10", False, "E1-enumerator", "exhaustive enumeration 12 methods x 4 pose types x operand alphabets; oracle = documented shape + 5-point derivative along every tangent direction through the implementation's boxplus",
+add("C10", True, "E1-enumerator", "exhaustive enumeration 12 methods x 4 pose types x operand alphabets; oracle = documented shape + 5-point derivative along every tangent direction through the implementation's boxplus",
     "Every public pose Jacobian method is evaluated on every operand pair of the alphabets; shape, tangent derivative and compact-row consistency are checked.",
     "radial (off-sphere) derivative of 7-column SE(3) Jacobians deliberately not judged", "DESIGN.md 4 C10")
 add("C11", False, "E2-explorer", "explicit-state exploration of all operation words up to depth 4/5 over a 22-operation alphabet + periodic chains to 1e4 operations; dense angle alphabet for the wrap; optimizer histories",
